@@ -301,7 +301,7 @@ def run(ctx):
     ctx.cov['puts_raised'] = sum(1 for o in recs if not o['all_put'])
     ctx.cov['socket_transport_cases'] = sum(1 for o in recs if o['transport'] == 'sock')
     ctx.cov['aborted_cases'] = len(aborts)
-    for o in (recs[100], recs[len(recs) // 2], recs[-1]):
+    for o in [recs[min(k, len(recs) - 1)] for k in (100, len(recs) // 2, len(recs) - 1) if recs]:
         ctx.sample({'puts': [(p['op'], p['v'] if not isinstance(p['v'], list) else len(p['v'])) for p in o['puts']][:8], 'mut': o['mut'],
                     'wire': {'type': o['wire']['type'], 'size': o['wire']['size']}, 'gets': [(g['op'], g['a'], g['ok']) for g in o['gets']][:8]})
     ctx.cov['rule'] = ('every put sequence of length <= 3 over {int 0/-1/258, string ""/A/AB, fixed 1/2 bytes, 8-byte POD} read back with the mirrored gets and with one '
